@@ -73,7 +73,7 @@ def correspondence(ctx, model_ok, tmp):
     for d in dts:
         reg.registerDatasetType(d)
     req, impl = [], []
-    n_hist = 20 if ctx.quick() else 200
+    n_hist = 20 if ctx.quick() else 150
 
     def viol(what, key, replay):
         ctx.violations.append(core.Violation(what=what, key=key, replay=replay))
